@@ -2,8 +2,16 @@
 from loopsim import *
 
 
+def _links_only(links):
+    # run_loop_check passes "<links> <locals>"; the supervision-first oracle takes the links list
+    return links.split("] [")[0] + "]" if "] [" in links else links
+
+
 def run(chk):
-    # verdict codes per actor; 3x = priority rules (C03)
-    return run_loop_check(chk, lambda n, links, t: f"codes {n} {t}", "ports",
-                          "a lower-priority item started / progressed after kill() or stop() returned",
-                          accept=lambda o: isinstance(o, list) and not any(30 <= c < 40 or c == 17 for c in o))
+    # verdict codes per actor (3x = priority rules of C03, 17 = post_stop after a kill) and the
+    # trace oracle "a pending ActorStarted event is never overtaken by a user message"
+    return run_loop_check(
+        chk, lambda n, links, t: f"(codes {n} {t}, check_C03_sup_first {_links_only(links)} {t})", "ports",
+        "a lower-priority item started / progressed after kill() or stop() returned, or a user message overtook a pending supervision event",
+        accept=lambda o: (isinstance(o, tuple) and o[0] == "tuple" and isinstance(o[1], list)
+                          and not any(30 <= c < 40 or c == 17 for c in o[1]) and o[2] == "true"))
